@@ -958,4 +958,47 @@ theorem C28_full_false : ¬ C28_full := by
 theorem C28_area_unchecked : ¬ SelInv (run State.init [.selCell 5 5, .area 0 0]) := by
   unfold SelInv; decide
 
+/-! ### page up / page down: the pinned rule and the repair -/
+
+/-- **F28d as a theorem**: with the pinned row rule (`row = new top_row + (row - old top_row)`, no
+    clamping) `on_page_up` moves the selected cell off the grid — view scrolled to row 5, cell on row 2 -/
+theorem pageUp_pinned_leaves_grid :
+    ¬ SelInv (pageUpWith pageRowPinned (run State.init [.setTopLeft 5 1, .selCell 2 1])) := by
+  unfold SelInv; decide +kernel
+
+/-- **F28e as a theorem**: the pinned `on_page_down` moves the selected cell below the last row —
+    window 100 px high, view scrolled to row 1048570, cell on the last row -/
+theorem pageDown_pinned_leaves_grid :
+    ¬ SelInv (pageDownWith pageRowPinned
+      (run State.init [.setWinH 100, .setTopLeft 1048570 1, .selCell 1048576 1])) := by
+  unfold SelInv; decide +kernel
+
+/-- the same two histories with the repaired commands end on the grid (rows 1 and 1048576) -/
+theorem page_repaired_witnesses :
+    ((run State.init [.setTopLeft 5 1, .selCell 2 1, .pageUp]).sheets.map fun sh => sh.view.row) = [1]
+    ∧ ((run State.init [.setWinH 100, .setTopLeft 1048570 1, .selCell 1048576 1, .pageDown]).sheets.map
+        fun sh => (sh.view.row, sh.view.top)) = [(1048576, 1048574)] := by
+  decide +kernel
+
+/-- **every navigation command, for all states and arguments**: from a state satisfying the
+    invariant, page up / page down (any window height, any scroll position, any hidden rows), the
+    arrow keys, navigate-to-edge (any filled cells), keyboard range expansion, scrolling, window
+    resizing, hiding / unhiding rows and columns (any band, valid or not) and typing keep the
+    invariant — no hypothesis on the window sizes is needed -/
+theorem nav_step (s : State) (cmd : Cmd) (h : SelInv s) (hc : ∀ r c, cmd ≠ .area r c) :
+    SelInv (step s cmd) := by
+  apply sel_step s cmd h
+  cases cmd with
+  | area r c => exact absurd rfl (hc r c)
+  | _ => rfl
+
+/-- non-vacuity: a history through all of them, with hidden bands at the first rows and around the
+    selected cell, a one-row window, filled cells, undo and redo, is inside the domain and ends in a
+    state where the selected cell moved -/
+example : histOK State.init [.hideRows 0 1 3 true, .arrow .up, .selCell 8 2, .hideRows 0 5 7 true,
+    .arrow .up, .setWinH 25, .pageDown, .pageUp, .pageUp, .input 0 9 5, .edge .right, .expand .down,
+    .expand .right, .hideCols 0 1 2 true, .arrow .left, .undo, .undo, .redo, .setTopLeft 40 3, .pageUp,
+    .area 12 7] = true := by
+  decide +kernel
+
 end IronCalc.Selection
